@@ -1,5 +1,227 @@
 package main
 
-import "verifharness/internal/out"
+import (
+	"fmt"
+	"strings"
 
-func genC09(w *out.W, tier string) {}
+	"verifharness/internal/execrun"
+	"verifharness/internal/out"
+)
+
+// ---- C09: every fault position / pair of fault positions, then a clean run ----
+
+func shapeFiles(shape []int) ([]execrun.FileSpec, []string) {
+	var fs []execrun.FileSpec
+	var flat []string
+	for i, n := range shape {
+		f := execrun.FileSpec{Name: fmt.Sprintf("%d_f.sql", i+1)}
+		for j := 0; j < n; j++ {
+			s := fmt.Sprintf("F%dS%d;", i+1, j+1)
+			f.Stmts = append(f.Stmts, s)
+			flat = append(flat, s)
+		}
+		fs = append(fs, f)
+	}
+	return fs, flat
+}
+
+func shapes(maxFiles, maxStmts int) [][]int {
+	var res [][]int
+	var rec func(cur []int)
+	rec = func(cur []int) {
+		if len(cur) > 0 {
+			res = append(res, append([]int{}, cur...))
+		}
+		if len(cur) == maxFiles {
+			return
+		}
+		for n := 0; n <= maxStmts; n++ {
+			rec(append(cur, n))
+		}
+	}
+	rec(nil)
+	return res
+}
+
+func faultAt(i int) []bool {
+	if i < 0 {
+		return nil
+	}
+	f := make([]bool, i+1)
+	f[i] = true
+	return f
+}
+
+func genC09(w *out.W, tier string) {
+	maxFiles, maxStmts, triples := 3, 3, false
+	if tier == "thorough" {
+		maxFiles, maxStmts, triples = 3, 4, true
+	}
+	w.Exhaust = true
+	w.Rule = fmt.Sprintf("exhaustive: every directory shape of 1..%d files x 0..%d statements x every fault position (each ExecContext and each WriteRevision call of the run) in a first run x every fault position or none in a second run (thorough: also a third) x a final clean run; ExecuteN(0) each time on a recording driver/store. Non-trivial = at least one fault hit a call that was actually made; distinct by (shape, fault positions)", maxFiles, maxStmts)
+	id := 0
+	for _, sh := range shapes(maxFiles, maxStmts) {
+		files, flat := shapeFiles(sh)
+		total := 0
+		for _, n := range sh {
+			total += 2*n + 2
+		}
+		var seqs [][]int
+		for i := 0; i < total; i++ {
+			seqs = append(seqs, []int{i})
+			for j := -1; j < total; j++ {
+				if j >= 0 {
+					seqs = append(seqs, []int{i, j})
+				}
+				if triples && j >= 0 && len(sh) <= 2 {
+					for k := 0; k < total; k++ {
+						seqs = append(seqs, []int{i, j, k})
+					}
+				}
+			}
+		}
+		seqs = append(seqs, []int{})
+		for _, sq := range seqs {
+			id++
+			cid := fmt.Sprintf("c09-%d", id)
+			var runs []execrun.Run
+			for _, fi := range sq {
+				runs = append(runs, execrun.Run{Order: "linear", Faults: faultAt(fi), Files: files})
+			}
+			runs = append(runs, execrun.Run{Order: "linear", Files: files}, execrun.Run{Order: "linear", Files: files})
+			line, obs, res, err := execrun.History(runs)
+			if err != nil {
+				w.Violation(cid, "harness", err.Error())
+				continue
+			}
+			w.Case(cid, line, obs)
+			w.Count(fmt.Sprintf("faults:%d", len(sq)))
+			hit := false
+			for i := range sq {
+				for _, e := range res[i].Events {
+					if strings.HasSuffix(e, ":0") {
+						hit = true
+					}
+				}
+				w.Count("run-outcome:" + strings.SplitN(res[i].Outcome, ":", 2)[0])
+			}
+			if hit {
+				w.NonTrivial(fmt.Sprintf("%v|%v", sh, sq))
+			}
+			oracleC09(w, cid, sh, flat, sq, res)
+		}
+	}
+}
+
+// oracleC09 states property C09 on the recorded events of the real executor.
+func oracleC09(w *out.W, id string, shape []int, flat []string, faults []int, res []execrun.Result) {
+	desc := fmt.Sprintf("shape=%v faults-at-call=%v", shape, faults)
+	p := 0                          // next expected statement of flat
+	repeatOK := map[string]bool{}   // statements whose own bookkeeping write failed
+	execOK := map[string]int{}      // successful executions per file version
+	stmtFile := func(s string) string { return strings.SplitN(strings.TrimPrefix(s, "F"), "S", 2)[0] }
+	onlyStmtFaults := true
+	repeats := 0
+	for ri, r := range res {
+		if r.Outcome == "panic" {
+			w.Violation(id, "panic", fmt.Sprintf("run %d panicked: %s", ri, desc))
+			return
+		}
+		failed := false
+		var lastExec string
+		lastExecPendingWrite := false
+		for _, e := range r.Events {
+			parts := strings.Split(e, ":")
+			switch parts[0] {
+			case "x":
+				if failed {
+					w.Violation(id, "continued-after-fault", fmt.Sprintf("run %d executed a statement after a failure: %s", ri, desc))
+					return
+				}
+				ok := parts[len(parts)-1] == "1"
+				s := unhex(parts[1])
+				if !ok {
+					failed = true
+					continue
+				}
+				switch {
+				case p < len(flat) && s == flat[p]:
+					p++
+				case p > 0 && s == flat[p-1] && repeatOK[s]:
+					repeatOK[s] = false
+					repeats++
+				default:
+					w.Violation(id, "skip-or-reorder", fmt.Sprintf("run %d executed %q, expected %q (or an allowed repeat): %s", ri, s, at(flat, p), desc))
+					return
+				}
+				execOK[stmtFile(s)]++
+				lastExec, lastExecPendingWrite = s, true
+			case "w":
+				ok := parts[len(parts)-1] == "1"
+				ver := unhex(parts[1])
+				var applied int
+				fmt.Sscan(parts[2], &applied)
+				if !ok {
+					failed = true
+					onlyStmtFaults = false
+					if lastExecPendingWrite {
+						repeatOK[lastExec] = true
+					}
+				} else if applied > distinctExecuted(execOK, ver, repeats, flat, p) {
+					w.Violation(id, "overclaim", fmt.Sprintf("run %d stored Applied=%d for version %s but only %d of its statements ran: %s", ri, applied, ver, distinctExecuted(execOK, ver, repeats, flat, p), desc))
+					return
+				}
+				lastExecPendingWrite = false
+			}
+		}
+	}
+	if p != len(flat) {
+		w.Violation(id, "not-completed", fmt.Sprintf("after the clean runs only %d of %d statements ran: %s", p, len(flat), desc))
+		return
+	}
+	if onlyStmtFaults && repeats != 0 {
+		w.Violation(id, "not-exactly-once", fmt.Sprintf("only statements failed but %d statement(s) ran twice: %s", repeats, desc))
+	}
+	last := res[len(res)-1]
+	if last.Outcome != "nopending" {
+		w.Violation(id, "not-settled", fmt.Sprintf("run after completion returned %s: %s", last.Outcome, desc))
+	}
+	// final table: every file complete
+	for i, n := range shape {
+		// (the partial hashes may remain when the final clean-up write failed; that is harmless)
+		want := fmt.Sprintf("%s:%d:%d:", execrun.Hex(fmt.Sprint(i+1)), n, n)
+		if !strings.Contains(" "+last.Table, " "+want) {
+			w.Violation(id, "final-table", fmt.Sprintf("final revision of file %d is not %s: table=%s: %s", i+1, want, last.Table, desc))
+			return
+		}
+	}
+}
+
+// distinctExecuted = number of distinct statements of the version that ran successfully.
+func distinctExecuted(execOK map[string]int, ver string, repeats int, flat []string, p int) int {
+	n := 0
+	for _, s := range flat[:p] {
+		if strings.HasPrefix(s, "F"+ver+"S") {
+			n++
+		}
+	}
+	return n
+}
+
+func at(l []string, i int) string {
+	if i < len(l) {
+		return l[i]
+	}
+	return "<nothing>"
+}
+
+func unhex(h string) string {
+	if h == "-" {
+		return ""
+	}
+	b := make([]byte, len(h)/2)
+	for i := range b {
+		fmt.Sscanf(h[2*i:2*i+2], "%02x", &b[i])
+	}
+	return string(b)
+}
